@@ -28,7 +28,10 @@ Theorem compute_nil_nodes shape a vals minv :
              exists t, In t (fnodes R) /\ t' = relabel (fnodes (sort_by tid R)) t.
 Proof.
   intros R t'. unfold compute. rewrite (run_ext (adj_of shape a) (indep_of []) np _ indep_nil). fold R.
-  rewrite make_trunk_nil, relabel_forest_fnodes, in_map_iff. split.
+  rewrite make_trunk_nil.
+  assert (Hfin : forall f, In t' (fnodes (sort_by tid f)) <-> In t' (fnodes f)).
+  { intros f. split; apply Permutation_in; [|symmetry]; apply perm_fnodes, sort_by_perm. }
+  rewrite Hfin, relabel_forest_fnodes, in_map_iff. split.
   - intros [t [E Ht]]. exists t. split; [|symmetry; exact E].
     apply (Permutation_in _ (perm_fnodes _ _ (sort_by_perm tid R))), Ht.
   - intros [t [Ht E]]. exists t. split; [symmetry; exact E|].
